@@ -11,6 +11,8 @@ open Dtail Dtail.Go
 def toFOp : GoFOp → Option FOp
   | .open p .trunc => some (.openTrunc p)
   | .open p .append => some (.openAppend p)
+  | .open _ .rdcreate => none
+  | .open _ .rdonly => none
   | .write p d => some (.write p d)
   | .rename s d => some (.rename s d)
   | .remove _ => none
